@@ -5,10 +5,12 @@ pub trait Suite {
 }
 
 pub mod codec;
+pub mod config;
 
 pub fn make(name: &str) -> Option<Box<dyn Suite>> {
     match name {
         "codec" => Some(Box::new(codec::Codec::new())),
+        "config" => Some(Box::new(config::Config::new())),
         _ => None,
     }
 }
